@@ -254,6 +254,9 @@ _RE_ANCHOR = re.compile(r"(?:\[[^\]]*\] )?(\S+) \(output anchor\)(?: -> (\S+))?"
 _RE_CONST = re.compile(r"(?:\[[^\]]*\] )?(\S+) \((?:folded from \d+ constants: )?value=(-?\d+)( \(input\))?\)(?: -> (\S+))?")
 
 
+_RE_INTERNAL = re.compile(r"^(bundle_const|const|arith|decider|wire_merge|folded_merge|bundle_arith|bundle_decider|bundle_gate)_\w*\d+")
+
+
 class View:
     """Name-level view of a compiled blueprint."""
 
@@ -273,7 +276,7 @@ class View:
                     self.anchors.setdefault(m.group(1), []).append((n, m.group(2)))
                     continue
                 m = _RE_CONST.fullmatch(d)
-                if m:
+                if m and not _RE_INTERNAL.match(m.group(1)):
                     self.consts.setdefault(m.group(1), []).append(
                         (n, int(m.group(2)), bool(m.group(3)), m.group(4)))
                     continue
